@@ -108,7 +108,8 @@ def stage(rep, prop, tier, binary):
                 if op == "dir":
                     os.makedirs(p)
                 history.append([op, sym])
-            elif op == "concat" and "cat.jbk" not in w.names:
+            elif op == "concat" and "cat.jbk" not in w.names and not any(x[0] == "prefix" for x in history):
+                # (tools::concat reads its inputs from their first byte: an embedded container is not an input it supports)
                 files = [f for f in PP.loose_files(w)]
                 order = [w.entry] + rng.sample([f for f in files if f != w.entry], rng.randrange(0, len(files)))
                 out = os.path.join(w.dir, "cat.jbk")
